@@ -419,3 +419,55 @@ async fn run(multi_thread: bool) {
         let _ = out.flush();
     }
 }
+
+/// `rlv serve <port> <workers> mem | disk <path> <block> <rowset>`: the real PostgreSQL-protocol
+/// server (`risinglight::server::run_server`) on 127.0.0.1:<port> over a fresh or existing
+/// database, on a multi-thread runtime as the CLI starts it. Panics (a panicking connection task is
+/// otherwise silent: the client just sees the socket close) are appended to `<path>.panics` /
+/// stderr lines `PANIC <site>|...` so the supervisor can read them.
+pub fn serve_main(args: &[String]) {
+    let port: u16 = args[0].parse().unwrap();
+    let workers: usize = args[1].parse().unwrap();
+    let engine = args[2].clone();
+    install_panic_monitor();
+    let rt = tokio::runtime::Builder::new_multi_thread()
+        .worker_threads(workers.max(1))
+        .enable_all()
+        .build()
+        .unwrap();
+    rt.block_on(async move {
+        let db = if engine == "mem" {
+            Database::new_in_memory()
+        } else {
+            let o = DiskOpts {
+                path: PathBuf::from(&args[3]),
+                block: args.get(4).and_then(|s| s.parse().ok()).unwrap_or(16384),
+                rowset: args.get(5).and_then(|s| s.parse().ok()).unwrap_or(256 << 20),
+                crc: true,
+                first_key: true,
+                cache: 4096,
+            };
+            match open_disk(&o).await {
+                Ok(db) => db,
+                Err(e) => {
+                    println!("OPEN-FAILED {e}");
+                    std::process::exit(3);
+                }
+            }
+        };
+        // report panics as they happen (one line each) on stdout
+        tokio::spawn(async {
+            let mut seen = 0usize;
+            loop {
+                tokio::time::sleep(std::time::Duration::from_millis(20)).await;
+                let p = PANICS.lock().unwrap();
+                while seen < p.len() {
+                    println!("PANIC {}", p[seen].replace('\n', " "));
+                    seen += 1;
+                }
+            }
+        });
+        println!("LISTENING {port}");
+        risinglight::server::run_server(Some("127.0.0.1".into()), Some(port), db).await;
+    });
+}
